@@ -105,15 +105,107 @@ fn junk_runs(max_len: usize) -> Vec<Vec<u8>> {
     out
 }
 
+/// The same insertions with one master id buffered, wherever the junk does not fall inside (or directly behind a
+/// still open) buffered master: the masters before and after the junk are complete and must come out as Full items.
+#[allow(clippy::too_many_arguments)]
+fn buffered_variants(ctx: &mut Ctx, rs: &RefSpec, doc: &Vec<crate::refmodel::Node>, bytes: &[u8], lay: &[Lay], flat: &[(NItem, usize)], flat_ex: &[(NItem, usize, usize)], junks: &[Vec<u8>]) {
+    let mut present: Vec<u64> = Vec::new();
+    crate::refmodel::visit(doc, &mut |n, _| {
+        if n.is_master() && !present.contains(&n.id) {
+            present.push(n.id);
+        }
+    }, 0);
+    for (li, l) in lay.iter().enumerate() {
+        let b = l.tag_start;
+        let enclosing: Vec<&Lay> = lay.iter().filter(|k| k.is_master && k.data_start <= b && b < k.end).collect();
+        // ancestors in the tree (known- and unknown-size)
+        let mut ancestors: Vec<u64> = Vec::new();
+        let mut d = l.depth;
+        for k in (0..li).rev() {
+            if lay[k].depth < d {
+                ancestors.push(lay[k].id);
+                d = lay[k].depth;
+            }
+        }
+        let mut seen = 0;
+        let mut fi = 0;
+        for (k, (it, _)) in flat.iter().enumerate() {
+            if !it.is_end() {
+                if seen == li {
+                    fi = k;
+                    break;
+                }
+                seen += 1;
+            }
+        }
+        let mut deferred = 0;
+        while deferred < fi && flat_ex[fi - 1 - deferred].0.is_end() && lay[flat_ex[fi - 1 - deferred].2].unknown {
+            deferred += 1;
+        }
+        let still_open: Vec<u64> = flat[fi - deferred..fi].iter().map(|x| x.0.id()).collect();
+        for id in &present {
+            if ancestors.contains(id) || still_open.contains(id) {
+                continue;
+            }
+            let set = [*id];
+            for junk in junks.iter().filter(|j| j.len() <= 2 || j.len() == 5) {
+                let j = junk.len();
+                if !enclosing.iter().all(|k| l.end + j <= k.end) {
+                    continue;
+                }
+                let mut input = Vec::with_capacity(bytes.len() + j);
+                input.extend_from_slice(&bytes[..b]);
+                input.extend_from_slice(junk);
+                input.extend_from_slice(&bytes[b..]);
+                let cfg = Cfg::strict().with_buffered(&set);
+                let dsc = || format!("doc=[{}] bytes={} junk={} inserted at {} buffered=[{:x}]", docs::doc_short(rs, doc), hex(bytes), hex(junk), b, id);
+                if !ctx.enter(&dsc) {
+                    continue;
+                }
+                ctx.nontrivial();
+                let want_before = crate::c12::rollup_expect(&flat[..fi - deferred], &set);
+                let shifted: Vec<(NItem, usize)> = flat[fi - deferred..].iter().map(|(it, o)| (it.clone(), if *o >= b { *o + j } else { *o })).collect();
+                let want_after = crate::c12::rollup_expect(&shifted, &set);
+                if want_after.iter().any(|x| matches!(x.0, NItem::Full(..))) {
+                    ctx.count("buffered_master_after_the_junk", 1);
+                }
+                if want_before.last().map(|x| matches!(x.0, NItem::Full(..))).unwrap_or(false) {
+                    ctx.count("junk_directly_behind_a_buffered_master", 1);
+                }
+                match run_with_recovery(&input, &cfg) {
+                    Err((k, det)) => ctx.violation(&format!("buffered/{}", k), &dsc, &det),
+                    Ok(r) => {
+                        ctx.transitions += r.calls;
+                        let bad = if r.before != want_before {
+                            Some("buffered/items-before-the-junk-differ")
+                        } else if r.errors.len() != 1 || r.recover.is_err() || r.tail != "None" {
+                            Some("buffered/not-exactly-one-error-and-a-successful-recovery")
+                        } else if r.after != want_after {
+                            Some("buffered/items-after-recovery-differ-from-undamaged-document")
+                        } else {
+                            None
+                        };
+                        if let Some(k) = bad {
+                            ctx.violation(k, &dsc, &format!("expected before [{}] after [{}] | input={} | before [{}] errors {:?} recover {:?} after [{}] tail {}", want_before.iter().map(|(i, o)| format!("{}@{}", i.short(), o)).collect::<Vec<_>>().join(" "), want_after.iter().map(|(i, o)| format!("{}@{}", i.short(), o)).collect::<Vec<_>>().join(" "), hex(&input), r.before.iter().map(|(i, o)| format!("{}@{}", i.short(), o)).collect::<Vec<_>>().join(" "), r.errors.iter().map(|e| e.short()).collect::<Vec<_>>(), r.recover.as_ref().map_err(|e| e.short()), r.after.iter().map(|(i, o)| format!("{}@{}", i.short(), o)).collect::<Vec<_>>().join(" "), r.tail));
+                        }
+                    }
+                }
+                ctx.validated += 1;
+                ctx.leave();
+            }
+        }
+    }
+}
+
 pub fn run(ctx: &mut Ctx) {
     let rs = v_refspec();
     crate::spec::assert_spec_matches::<V>(&rs);
     let max_junk = ctx.tier.pick(6, 10);
     let p = DocParams { max_nodes: ctx.tier.pick(5, 6), globals: vec![ID_TAG, ID_VOID], exclude: vec![], unknown_subsets: true, devs: 0, payload_classes: false, big_payloads: false, noncanonical: false, width_devs: false, extras: true, all_widths: false };
-    ctx.meta("rule", "cases: (known-size document, tag boundary b (not the end), junk run, capacity); junk runs = every string up to length 3 over {00, 02, 05, 0f} (bytes that cannot begin any id of V whatever follows: zero byte, 7-, 6- and 5-byte markers) plus structured runs up to the length bound; inserted without adjusting any size field. Independent precondition: following tag's extent + junk length still inside every enclosing known-size master's declared range. If it holds: items before the junk == reference flatten prefix, exactly one error, try_recover() Ok, remaining items == undamaged flatten with offsets >= b shifted by the junk length, clean end. Always: no panic, try_recover fails only with UnexpectedEOF/ReadError, offsets never move backwards across a recovery. Non-trivial: insertions inside >= 1 known-size master with the precondition true.");
+    ctx.meta("rule", "cases: (known-size document, tag boundary b (not the end), junk run, capacity); junk runs = every string up to length 3 over {00, 02, 05, 0f} (bytes that cannot begin any id of V whatever follows: zero byte, 7-, 6- and 5-byte markers) plus structured runs up to the length bound; inserted without adjusting any size field. Independent precondition: following tag's extent + junk length still inside every enclosing known-size master's declared range. If it holds: items before the junk == reference flatten prefix, exactly one error, try_recover() Ok, remaining items == undamaged flatten with offsets >= b shifted by the junk length, clean end. With one master id buffered (junk lengths 1, 2, 5; insertion points not inside, and not directly behind a still open, master of that id): the same with complete buffered masters as Full items before and after the junk. Always: no panic, try_recover fails only with UnexpectedEOF/ReadError, offsets never move backwards across a recovery. Non-trivial: insertions inside >= 1 known-size master with the precondition true.");
     ctx.meta("bounds", &format!("documents <= {} elements (+ spines), every boundary, junk length <= {}, capacities {{default,16}}, tolerance {{none, oversized, hierarchy+oversized}}", p.max_nodes, max_junk));
     ctx.meta("assumptions", "the unconditional clause for arbitrary byte streams and call histories is exercised by C05's history sweep");
-    for c in ["unknown_size_ends_deferred_past_the_junk", "precondition_true_inside_known_master", "precondition_true_root_level", "precondition_false"] {
+    for c in ["unknown_size_ends_deferred_past_the_junk", "precondition_true_inside_known_master", "precondition_true_root_level", "precondition_false", "buffered_master_after_the_junk", "junk_directly_behind_a_buffered_master"] {
         ctx.expect_nonzero(c);
     }
     let junks = junk_runs(max_junk);
@@ -218,7 +310,7 @@ pub fn run(ctx: &mut Ctx) {
                 }
             }
         }
-        let _ = gen::count_nodes(doc);
+        buffered_variants(ctx, &rs, doc, &bytes, &lay, &flat, &flat_ex, &junks);
         !ctx.should_stop()
     });
 }
